@@ -20,6 +20,9 @@ _alt = os.environ.get("VERIF_REPO")
 if _alt and os.path.realpath(_alt) != os.path.realpath("/repo"):
     EVID = "/tmp/verif_alt/evidence"
     REPLAY = "/tmp/verif_alt/replay"
+if os.environ.get("VERIF_OUT"):          # development only: a trial run that must not rewrite the committed evidence
+    EVID = os.path.join(os.environ["VERIF_OUT"], "evidence")
+    REPLAY = os.path.join(os.environ["VERIF_OUT"], "replay")
 
 
 def seed() -> int:
